@@ -5,5 +5,5 @@ CONSTANTS
   MaxSize = 0
   MaxExtra = 0
   Kinds <- TKinds
-INVARIANTS Report Drift Unusable
+INVARIANTS Report Drift Unusable ScanReport ScanDrift
 CHECK_DEADLOCK FALSE
